@@ -206,6 +206,9 @@ class Sim:
             lv, rv = self.resolve(inst(lt, p.env), fs), self.resolve(inst(rt, p.env), fs)
             r = lv == rv
             return r if isinstance(e.ops[0], ast.Eq) else not r
+        if isinstance(e, ast.Compare) and len(e.ops) == 1 and isinstance(e.ops[0], (ast.Is, ast.IsNot)) and isinstance(e.left, ast.Name) \
+                and isinstance(e.comparators[0], ast.Constant) and e.comparators[0].value is None:
+            return isinstance(e.ops[0], ast.IsNot)  # a local that holds a value (Optional results of helpers: the case where there is one)
         if isinstance(e, ast.Compare) and isinstance(e.ops[0], (ast.NotIn, ast.In)):
             return isinstance(e.ops[0], ast.NotIn)  # `path not in res`: first occurrence
         if isinstance(e, ast.Name):
